@@ -1043,9 +1043,15 @@ mod anims {
         }
         let s1 = section(7, vec![bone(&mut sm, 0, Some(3), Some(3), None), empty(1), bone(&mut sm, 2, None, Some(2), Some(2))]);
         let s2 = section(8, vec![bone(&mut sm, 0, Some(1), None, None)]);
-        push(v, "anim", "modern-hand-2sections-trs-keys", hand_modern(&[s1.clone(), s2.clone()]));
+        // (the crate's own writer round-trips animated bones since the section-size repair in /repo;
+        // the hand-encoded variant of the old, wrong layout is no longer accepted and was dropped)
+        if let Some(b) = bytes(&modern(vec![s1.clone(), s2.clone()])) {
+            push(v, "anim", "modern-2sections-trs-keys", b);
+        }
         let s3 = section(9, vec![bone(&mut sm, 5, Some(8), Some(8), Some(8)), bone(&mut sm, 6, Some(4), Some(4), Some(4))]);
-        push(v, "anim", "modern-hand-1section-2bones-8keys", hand_modern(&[s3.clone()]));
+        if let Some(b) = bytes(&modern(vec![s3.clone()])) {
+            push(v, "anim", "modern-1section-2bones-8keys", b);
+        }
         if let Some(b) = bytes(&legacy(vec![s1, s2])) {
             push(v, "anim", "legacy-2sections-trs-keys", b);
         }
